@@ -128,6 +128,8 @@ def sh (f : Fmt) : Nat := ((f.prec : Int) - 1 - f.emin).toNat
 def maxGrid (f : Fmt) : Nat := (2 ^ f.prec - 1) * 2 ^ (f.emax - f.emin).toNat
 
 def mf8 : Fmt := ⟨4, -6, 7⟩
+/-- the harness' second 8-bit format (1 sign, 5 exponent, 2 mantissa bits, bias 15): largest number 57344 -/
+def e5m2 : Fmt := ⟨3, -14, 15⟩
 def f32 : Fmt := ⟨24, -126, 127⟩
 def f64 : Fmt := ⟨53, -1022, 1023⟩
 /-- x87 double extended (`long double` of x86-64) -/
@@ -266,5 +268,20 @@ def decode (code : Nat) : MF :=
   let mag : Int := if e = 0 then (m : Int) else ((8 + m) * 2 ^ (e - 1) : Nat)
   .fin (if neg then -mag else mag)
 end MF
+
+/-- the harness' 8-bit format with 5 exponent bits -/
+abbrev MFB := FP Fmt.e5m2
+
+namespace MFB
+/-- value of an 8-bit code: exponent field 0 = subnormal `m · 2^-16`, 31 = infinity (m = 0) / NaN, otherwise
+    `(4+m) · 2^(e-17)`; in grid units (`2^-16`) that is `m` resp. `(4+m) · 2^(e-1)` -/
+def decode (code : Nat) : MFB :=
+  let neg := code / 128 % 2 = 1
+  let e := code / 4 % 32
+  let m := code % 4
+  if e = 31 then (if m = 0 then .inf neg else .nan) else
+  let mag : Int := if e = 0 then (m : Int) else ((4 + m) * 2 ^ (e - 1) : Nat)
+  .fin (if neg then -mag else mag)
+end MFB
 
 end DV.C17
